@@ -269,13 +269,30 @@ class GroupingHarness:
         def hook(it_, f, args, kwargs):
             fn = f.func if isinstance(f, BoundMethod) else f
             q = getattr(fn, "qualname", None) if isinstance(fn, Closure) else None
-            if q in ("window_", "window_when_", "window_toggle_", "window_with_count_", "flat_map_", "filter_", "to_list_", "to_iterable_"):
+            if q in ("window_", "window_when_", "window_toggle_", "window_with_count_", "window_with_time_", "window_with_time_or_count_", "flat_map_", "filter_",
+                     "to_list_", "to_iterable_"):
                 return _applied(fn, q, args, kwargs)
             return NOTSET
         it = self.setup(ctx, hook)
         src = Opaque("source", "source")
-        f = it.module_get("reactivex.operators._buffer", fname)
-        if fname == "buffer_":
+        modname = {"buffer_with_time_": "reactivex.operators._bufferwithtime", "buffer_with_time_or_count_": "reactivex.operators._bufferwithtimeorcount"}.get(fname, "reactivex.operators._buffer")
+        if modname != "reactivex.operators._buffer":
+            uid = f"{modname.replace('.', '/')}.py::{fname}"
+        f = it.module_get(modname, fname)
+        timed = None
+        if fname == "buffer_with_time_":
+            span = ctx.fresh("timespan", "int")
+            ctx.assume(span.t >= 1)
+            shift = ctx.fresh("timeshift", "int") if ctx.choose(2, "timeshift given") == 0 else None
+            if shift is not None:
+                ctx.assume(shift.t >= 1)
+            args, wname = [span, shift, self.sched], "window_with_time_"
+            timed = [span, shift if shift is not None else span, self.sched]
+        elif fname == "buffer_with_time_or_count_":
+            span, cnt = ctx.fresh("timespan", "int"), ctx.fresh("count", "int")
+            args, wname = [span, cnt, self.sched], "window_with_time_or_count_"
+            timed = [span, cnt, self.sched]
+        elif fname == "buffer_":
             args, wname = [Opaque("source", "boundaries")], "window_"
         elif fname == "buffer_when_":
             args, wname = [Opaque("callback", "closing_mapper")], "window_when_"
@@ -300,7 +317,16 @@ class GroupingHarness:
         if ops_ != want:
             return
         wa = chain[0].attrs["args"]
-        if fname == "buffer_with_count_":
+        if timed is not None:
+            def eq(x, y):
+                if isinstance(x, SV) and isinstance(y, SV):
+                    v, _m, _b = smt.prove(ctx.pc, x.t == y.t)
+                    return v == "proved"
+                return x is y
+            wa2 = list(wa) + [chain[0].attrs["kwargs"].get(n) for n in ("timespan", "timeshift", "count", "scheduler")][len(wa):len(wa)]
+            self.rec(ctx, uid + "/the-windows-use-the-same-timespan-shift-or-count-and-scheduler", len(wa2) == 3 and all(eq(x, y) for x, y in zip(wa2, timed)),
+                     detail=f"window operator arguments: {wa2}")
+        elif fname == "buffer_with_count_":
             # the window operator gets the same count and the same skip (skip None: count)
             ok = len(wa) >= 1 and isinstance(wa[0], SV) and wa[0].t.eq(args[0].t)
             sk = wa[1] if len(wa) > 1 else chain[0].attrs["kwargs"].get("skip")
@@ -332,6 +358,65 @@ class GroupingHarness:
                 t = it.truth_term(it.call(p, [lst], {}))
                 self.rec(ctx, uid + f"/the-final-filter-keeps-exactly-the-non-empty-buffers[len={n}]", (t is True or (not isinstance(t, bool) and z3.is_true(z3.simplify(t)))) == (n > 0))
 
+    # -- window_toggle is group_join over the openings (C18) --------------------------------------------------------------
+    def run_toggle(self, ctx):
+        uid = "reactivex/operators/_window.py::window_toggle_"
+        captured = []
+
+        def hook(it_, f, args, kwargs):
+            fn = f.func if isinstance(f, BoundMethod) else f
+            q = getattr(fn, "qualname", None) if isinstance(fn, Closure) else None
+            if q == "group_join_":
+                captured.append((list(args), dict(kwargs)))
+                return Native("group_join-operator", lambda i, a, k: Opaque("applied", "group_join", op="group_join_", of=a[0], args=list(args)))
+            if q == "map_":
+                return _applied(fn, q, args, kwargs)
+            if q in ("empty", "empty_"):
+                return Opaque("empty", "empty()")
+            return NOTSET
+        it = self.setup(ctx, hook)
+        src, opn = Opaque("source", "source"), Opaque("source", "openings")
+        cm = Opaque("callback", "closing_mapper")
+        f = it.module_get("reactivex.operators._window", "window_toggle_")
+        res = it.call(it.call(f, [opn, cm], {}), [src], {})
+        ok = (isinstance(res, Opaque) and res.kind == "applied" and res.attrs["op"] == "map_" and isinstance(res.attrs["of"], Opaque)
+              and res.attrs["of"].attrs.get("op") == "group_join_" and res.attrs["of"].attrs["of"] is opn and len(captured) == 1)
+        self.rec(ctx, uid + "/is-group_join-over-the-openings-then-map", ok)
+        if not ok:
+            return
+        a, kw = captured[0]
+        a = a + [None] * (3 - len(a))
+        right, ldur, rdur = kw.get("right", a[0]), kw.get("left_duration_mapper", a[1]), kw.get("right_duration_mapper", a[2])
+        self.rec(ctx, uid + "/the-source-is-the-joined-side-and-a-window-lives-as-long-as-closing_mapper(opening)", right is src and ldur is cm)
+        try:
+            d = it.call(rdur, [ctx.fresh("x", "val")], {})
+        except PyExc as e:
+            d = e
+        self.rec(ctx, uid + "/a-source-element-is-only-offered-to-the-windows-open-when-it-arrives (its own duration is empty())",
+                 isinstance(d, Opaque) and d.kind == "empty")
+        m = res.attrs["args"][0] if res.attrs["args"] else None
+        win = Opaque("shared", "a window")
+        r = it.call(m, [(ctx.fresh("opening", "val"), win)], {})
+        self.rec(ctx, uid + "/what-is-handed-downstream-is-the-window-itself", r is win)
+
+    # -- K8 lemma: the closed forms of the window_with_count spec are the property's wording ----------------------------------
+    def run_count_lemma(self, ctx):
+        """specs/c18.py:window_with_count.valid says: when element n arrives, windows closed(n) .. opened(n)-1 are open, with
+        opened(n) = n // skip + 1 and closed(n) = 0 if n < count else (n - count) // skip + 1.  Lemma: window k is among them
+        iff k*skip <= n <= k*skip + count - 1 (for all n >= 0, k >= 0, count >= 1, skip >= 1; Python's // on non-negative ints)."""
+        n, c, sk, k = z3.Ints("n count skip k")
+        pre = [n >= 0, c >= 1, sk >= 1, k >= 0]
+        opened = n / sk + 1
+        closed = z3.If(n < c, 0, (n - c) / sk + 1)
+        among = z3.And(closed <= k, k < opened)
+        holds = z3.And(k * sk <= n, n <= k * sk + c - 1)
+        uid = "specs/c18.py::window_with_count/lemma"
+        for name, goal in (("window-k-is-open-at-element-n-only-if-k*skip<=n<=k*skip+count-1", z3.Implies(among, holds)),
+                           ("window-k-is-open-at-element-n-if-k*skip<=n<=k*skip+count-1", z3.Implies(holds, among))):
+            t0 = time.time()
+            v, m, b = smt.prove(pre, goal)
+            ctx.results.append(Result(f"{uid}/{name}", v, b, smt.model_to_dict(m), [], "", time.time() - t0, "lemma"))
+
     def run(self, which):
         t0 = time.time()
         try:
@@ -342,9 +427,12 @@ class GroupingHarness:
                 todo = [lambda c: self.wiring(c, "grouped"), lambda c: self.wiring(c, "add_ref"), self.run_group_by,
                         lambda c: self.run_partition(c, False), lambda c: self.run_partition(c, True)]
             else:
-                for rel, fn in ((UFILE, "add_ref"), (WFILE, "buffer_"), (WFILE, "buffer_when_"), (WFILE, "buffer_toggle_"), (WFILE, "buffer_with_count_")):
+                for rel, fn in ((UFILE, "add_ref"), (WFILE, "buffer_"), (WFILE, "buffer_when_"), (WFILE, "buffer_toggle_"), (WFILE, "buffer_with_count_"),
+                                ("reactivex/operators/_bufferwithtime.py", "buffer_with_time_"), ("reactivex/operators/_bufferwithtimeorcount.py", "buffer_with_time_or_count_"),
+                                ("reactivex/operators/_window.py", "window_toggle_")):
                     self.note(rel, fn)
-                todo = [lambda c: self.wiring(c, "add_ref")] + [lambda c, _f=fn: self.run_buffer(c, _f) for fn in ("buffer_", "buffer_when_", "buffer_toggle_", "buffer_with_count_")]
+                todo = [lambda c: self.wiring(c, "add_ref"), self.run_toggle, self.run_count_lemma] + [lambda c, _f=fn: self.run_buffer(c, _f) for fn in (
+                    "buffer_", "buffer_when_", "buffer_toggle_", "buffer_with_count_", "buffer_with_time_", "buffer_with_time_or_count_")]
             for f in todo:
                 for p in explore(f):
                     self.results.extend(p.results)
